@@ -286,6 +286,8 @@ class Builder:
             r = t >> pdt.alias(step.get("name"), keep_col_refs=bool(step.get("keep", False)))
         elif v == "collect":
             r = t >> pdt.collect(keep_col_refs=bool(step.get("keep", True)))
+        elif v == "rematerialize":
+            r = pdt.Table(t >> pdt.export(pdt.Polars()))
         elif v == "transfer":
             r = pdt.transfer_col_references(t, self.vars[step["ref"]])
         elif v == "join":
